@@ -160,6 +160,10 @@ func mkPDB(b PDB) *policyv1.PodDisruptionBudget {
 		if len(*b.Sel) == 0 {
 			o.Spec.Selector = &metav1.LabelSelector{}
 		}
+		for _, e := range b.Exprs {
+			o.Spec.Selector.MatchExpressions = append(o.Spec.Selector.MatchExpressions,
+				metav1.LabelSelectorRequirement{Key: e.Key, Operator: metav1.LabelSelectorOperator(e.Op), Values: e.Values})
+		}
 	}
 	if b.Always {
 		pol := policyv1.AlwaysAllow
